@@ -83,6 +83,50 @@ func pathHas(p eng.Path, re string, pol bool) bool {
 	return false
 }
 
+// storesDisjointFromConditions reports whether no branch condition of fn reads
+// a field (by name) that fn stores to, and fn performs no map updates or
+// indexed stores into non-local memory. Then two syntactically equal
+// conditions over pure calls and unwritten fields have the same truth value
+// along any path of fn.
+func storesDisjointFromConditions(fn *ssa.Function) bool {
+	written := map[string]bool{}
+	ok := true
+	eng.EachInstr(fn, func(i ssa.Instruction) {
+		switch x := i.(type) {
+		case *ssa.Store:
+			switch a := x.Addr.(type) {
+			case *ssa.Alloc:
+			case *ssa.FieldAddr:
+				if _, local := a.X.(*ssa.Alloc); !local {
+					written[eng.FieldOf(a).Name()] = true
+				}
+			case *ssa.IndexAddr:
+				if _, local := a.X.(*ssa.Alloc); !local {
+					ok = false
+				}
+			default:
+				ok = false
+			}
+		case *ssa.MapUpdate:
+			ok = false
+		}
+	})
+	if !ok {
+		return false
+	}
+	eng.EachInstr(fn, func(i ssa.Instruction) {
+		if iff, isIf := i.(*ssa.If); isIf {
+			r := eng.Render(iff.Cond)
+			for f := range written {
+				if regexp.MustCompile(`\.` + regexp.QuoteMeta(f) + `\b`).MatchString(r) {
+					ok = false
+				}
+			}
+		}
+	})
+	return ok
+}
+
 // storesInBlock returns the stores in a block.
 func storesInBlock(b *ssa.BasicBlock) []*ssa.Store {
 	var out []*ssa.Store
